@@ -216,11 +216,18 @@ func (c *c18Chain) marketOps(cfg, batch, denom string) {
 		cn := sdk.Coin{Denom: denom, Amount: sdk.NewIntFromBigInt(n)}
 		return &cn
 	}
-	r := c.must(cfg, "sell", &markettypes.MsgSell{Seller: seller, Orders: []*markettypes.MsgSell_Order{{BatchDenom: batch, Quantity: "10", AskPrice: coinP(denom, ask), DisableAutoRetire: true}}})
+	exactFee := func(q string, a int64) *sdk.Coin {
+		fee := new(big.Rat).Mul(new(big.Rat).Mul(ref.MustDec(q), big.NewRat(a, 1)), bf)
+		cn := sdk.Coin{Denom: denom, Amount: sdk.NewIntFromBigInt(ref.Trunc(fee))}
+		return &cn
+	}
+	r := c.must(cfg, "sell", &markettypes.MsgSell{Seller: seller, Orders: []*markettypes.MsgSell_Order{{BatchDenom: batch, Quantity: "11.500001", AskPrice: coinP(denom, ask), DisableAutoRetire: true}}})
 	if r == nil || !r.OK {
 		return
 	}
 	id := r.Resps[0].(*markettypes.MsgSellResponse).SellOrderIds[0]
+	// a max fee that covers the buyer fee EXACTLY (rounded down to whole coins), on a fractional subtotal
+	c.must(cfg, "buy-exact-max-fee", &markettypes.MsgBuyDirect{Buyer: buyer, Orders: []*markettypes.MsgBuyDirect_Order{{SellOrderId: id, Quantity: "1.500001", BidPrice: coinP(denom, ask), DisableAutoRetire: true, MaxFeeAmount: exactFee("1.500001", ask)}}})
 	c.must(cfg, "buy-partial", &markettypes.MsgBuyDirect{Buyer: buyer, Orders: []*markettypes.MsgBuyDirect_Order{{SellOrderId: id, Quantity: "2.500001", BidPrice: coinP(denom, ask), DisableAutoRetire: true, MaxFeeAmount: maxFee("2.500001")}}})
 	c.must(cfg, "buy-full-retire", &markettypes.MsgBuyDirect{Buyer: buyer, Orders: []*markettypes.MsgBuyDirect_Order{{SellOrderId: id, Quantity: "7.499999", BidPrice: coinP(denom, ask+5), DisableAutoRetire: false, RetirementJurisdiction: "US", MaxFeeAmount: maxFee("7.499999")}}})
 	r = c.must(cfg, "sell", &markettypes.MsgSell{Seller: seller, Orders: []*markettypes.MsgSell_Order{{BatchDenom: batch, Quantity: "3", AskPrice: coinP(denom, 7), DisableAutoRetire: false}}})
@@ -230,6 +237,7 @@ func (c *c18Chain) marketOps(cfg, batch, denom string) {
 	id = r.Resps[0].(*markettypes.MsgSellResponse).SellOrderIds[0]
 	// a small purchase: subtotal 7 base units, so any positive fee below 1/7 yields a total fee that is
 	// positive but smaller than one base unit
+	c.must(cfg, "buy-exact-max-fee-small", &markettypes.MsgBuyDirect{Buyer: buyer, Orders: []*markettypes.MsgBuyDirect_Order{{SellOrderId: id, Quantity: "0.5", BidPrice: coinP(denom, 7), DisableAutoRetire: false, RetirementJurisdiction: "KE", MaxFeeAmount: exactFee("0.5", 7)}}})
 	c.must(cfg, "buy-small", &markettypes.MsgBuyDirect{Buyer: buyer, Orders: []*markettypes.MsgBuyDirect_Order{{SellOrderId: id, Quantity: "1", BidPrice: coinP(denom, 7), DisableAutoRetire: false, RetirementJurisdiction: "KE", MaxFeeAmount: coinP(denom, 50)}}})
 	c.must(cfg, "buy-fraction", &markettypes.MsgBuyDirect{Buyer: buyer, Orders: []*markettypes.MsgBuyDirect_Order{{SellOrderId: id, Quantity: "0.000001", BidPrice: coinP(denom, 8), DisableAutoRetire: false, RetirementJurisdiction: "KE", MaxFeeAmount: coinP(denom, 50)}}})
 	c.must(cfg, "update-order", &markettypes.MsgUpdateSellOrders{Seller: seller, Updates: []*markettypes.MsgUpdateSellOrders_Update{{SellOrderId: id, NewQuantity: "4", NewAskPrice: coinP(denom, 9)}}})
